@@ -94,8 +94,9 @@ pub fn c08() -> DiffProp {
             Fam::profile("exceptions", profiles::c08(), 100_000, 800_000, 800),
             Fam::profile("exceptions_triggers", profiles::with_triggers(profiles::c08()), 15_000, 100_000, 800),
             Fam::profile("exceptions_rich_finally", profiles::rich_finally(profiles::c08()), 30_000, 250_000, 800),
+            Fam::profile("exceptions_in_members", profiles::c08_members(), 30_000, 250_000, 900),
         ],
-        rule: "cases: generated programs (profile c08: try/catch, try/finally, try/catch/finally nested and interleaved with loops, functions and closures; explicit throws of any value, built-in failures, throws from callees; rethrow). Family 'exceptions' keeps recorded-defect shapes off, 'exceptions_triggers' turns them on and counts failures that match a recorded finding, 'exceptions_rich_finally' turns on only the two about finally blocks entered by an exception, so that finally blocks with declarations, loops, nested try statements and calls inside are checked in full whenever they are reached by a return, a break or the normal end of the try block. Oracle: reference interpreter (finally always runs once, then the saved outcome continues) vs yarel. Non-trivial: an exception was caught with >=2 try statements active, or from a callee, or a finally ran with a pending outcome; distinct by program text.",
+        rule: "cases: generated programs (profile c08: try/catch, try/finally, try/catch/finally nested and interleaved with loops, functions and closures; explicit throws of any value, built-in failures, throws from callees; rethrow). Family 'exceptions' keeps recorded-defect shapes off, 'exceptions_triggers' turns them on and counts failures that match a recorded finding, 'exceptions_rich_finally' turns on only the two about finally blocks entered by an exception, so that finally blocks with declarations, loops, nested try statements and calls inside are checked in full whenever they are reached by a return, a break or the normal end of the try block, 'exceptions_in_members' adds classes and fibers to the profile, so that try statements, throws and returns through finally blocks occur inside methods, static methods, constructors (where a bare return stands for the instance) and fiber bodies. Oracle: reference interpreter (finally always runs once, then the saved outcome continues) vs yarel. Non-trivial: an exception was caught with >=2 try statements active, or from a callee, or a finally ran with a pending outcome; distinct by program text.",
         nontrivial: nt_c08,
         floors: vec![("ev:caught", 5000), ("ev:caught_nested", 500), ("ev:caught_from_callee", 200), ("ev:finally_normal", 500), ("ev:finally_pending_throw", 100)],
         assumptions: vec!["shapes of the recorded findings (KNOWN_FINDINGS.txt, signatures ref-mismatch+E*) are excluded from the bulk family by construction and counted in the trigger family"],
